@@ -146,7 +146,7 @@ impl Property for C02 {
     type Case = Case;
     const ID: &'static str = "C02";
     fn cases(tier: Tier) -> u64 {
-        tier.pick(16_000, 400_000)
+        tier.pick(32_000, 500_000)
     }
     fn strategy(tier: Tier) -> BoxedStrategy<Case> {
         let n = tier.pick(40usize, 100usize);
